@@ -1025,6 +1025,9 @@ class _Parser(object):
             if isinstance(values, list):
                 condition, true_case, false_case = values
             elif isinstance(values, dict):
+                for field in ('if', 'then', 'else'):
+                    if field not in values:
+                        raise OperationFailure("Missing '%s' parameter to $cond" % field)
                 condition = values['if']
                 true_case = values['then']
                 false_case = values['else']
